@@ -9,14 +9,14 @@ DISTINCT_RULE = (
     "every non-forced PLACE/REPLACE decision through the default controls is re-judged by brute force over the position snapshot taken at the request; "
     "distinct = (kind, order type, side, which limits are set, accepted?, #orders in position<=5, ladder) decision cells; plus the end-to-end bound per update/settlement"
 )
-RULES = ["decision", "market-decision", "refused", "bound", "realised"]
-MINIMA = {"quick": {"rule_decision": 4000, "rule_market-decision": 500, "rule_refused": 500, "rule_bound": 3000}, "thorough": {"rule_decision": 150000}}
+RULES = ["decision", "market-decision", "refused", "bound", "realised", "live-decision"]
+MINIMA = {"quick": {"rule_decision": 4000, "rule_market-decision": 500, "rule_refused": 500, "rule_bound": 3000, "rule_live-decision": 800}, "thorough": {"rule_decision": 150000}}
 ASSUMPTIONS = [
     "affected-side rule: a BACK is judged on the lose side, a LAY on the win side (the other side is within the limit by induction over accepted orders)",
     "end-to-end bound only for strategies run with max_live_trade_count=1, no force, no removals with price reduction in the file",
     "tolerance 0.011 (two 2-dp roundings)",
 ]
-WEIGHTS = [("plain", 3), ("deep", 3), ("hostile", 2), ("multi", 1), ("recorded", 1)]
+WEIGHTS = [("plain", 3), ("deep", 3), ("hostile", 2), ("multi", 1), ("lines", 1), ("recorded", 1)]
 
 
 def _limits(rng):
@@ -29,6 +29,22 @@ def _limits(rng):
 def plan(tier, seed):
     cases = _sim.plan_profiles(tier, seed, WEIGHTS, 5000, 60000)
     # directed case for the listed finding C01-replace-not-revalued
+    # live trading: the decision is taken on what the order stream and the responses have told the framework; at a quiescent point
+    # (every response delivered, current bet table processed) that must be the exchange's own table
+    n = 1500 if tier == "quick" else 40000
+    cases += [{"mode": "live_gate", "seed": seed, "idx": i, "cfg": {"n": 1 + i % 3, "async": i % 4 == 3, "hc": i % 3 == 1}, "len": 9 + i % 6} for i in range(n)]
+    # scripted beginnings in which the framework must learn of a fill through the stream alone (after a replace, around a cancel
+    # that the exchange answers BET_TAKEN_OR_LAPSED, with the update overtaking the response), followed by a short random walk
+    pre = [
+        [["place", 0], ["resp", 0], ["snap"], ["replace", 0], ["resp", 0], ["fill", 0, 1.0], ["snap"], ["cancel", 0], ["resp", 0]],
+        [["place", 0], ["resp", 0], ["fill", 0, 1.0], ["cancel", 0], ["resp", 0], ["snap"]],
+        [["place", 0], ["resp", 0], ["cancel", 0], ["fill", 0, 1.0], ["snap"], ["resp", 0]],
+        [["place", 0], ["exch", 0], ["fill", 0, 1.0], ["snap"], ["resp", 0], ["snap"]],
+        [["place", 0], ["resp", 0], ["replace", 0], ["exch", 0], ["fill", 0, 0.4], ["snap"], ["resp", 0], ["fill", 0, 1.0], ["snap"]],
+        [["place", 0], ["resp", 0], ["update", 0], ["fill", 0, 1.0], ["snap"], ["resp", 0]],
+    ]
+    for i in range(len(pre) * (20 if tier == "quick" else 300)):
+        cases.append({"mode": "live_gate", "seed": seed, "idx": n + i, "cfg": {"n": 1 + (i // len(pre)) % 2, "async": False, "hc": i % 5 == 4}, "prefix": pre[i % len(pre)], "len": (i // len(pre)) % 4})
     return [{"seed": seed, "idx": 0, "profile": "plain", "directed": "replace"}] + cases[1:]
 
 
@@ -111,7 +127,46 @@ def _pre(fw, tr):
     pass
 
 
+def run_live_gate(desc):
+    from . import c11
+    from .. import livecases
+
+    rng = simgen.mk_rng(desc["seed"], desc["idx"], 101)
+    out = O.Out(PROPERTY)
+
+    def observe(r):
+        if not r.final or (r.restarted and r.replaced):  # restart + replaced bet: the listed C11 finding
+            return
+        st, by_sel = c11.exchange_truth(r)
+        m = r.w.market(r.mid)
+        if m is None or not by_sel:
+            return
+        sel = rng.choice(sorted(by_sel))
+        views = [c11.bet_view(b) for b in by_sel[sel]]
+        w_, l_ = O.selection_wpp(views)
+        side = rng.choice(("BACK", "LAY"))
+        price, size = rng.choice(((2.0, 4.0), (3.5, 2.0), (1.5, 10.0)))
+        order_exposure = size if side == "BACK" else (price - 1) * size
+        potential = (-l_ if side == "BACK" else -w_) + order_exposure
+        st.max_selection_exposure = round(potential + rng.choice((-0.5, 0.5, -3.0, 3.0)), 2)
+        probe = livecases.make_order(st, r.mid, sel=sel[0], handicap=sel[1], side=side, price=price, size=size)
+        before = len(r.w.executor.queue)
+        m.place_order(probe)
+        accepted = len(r.w.executor.queue) > before
+        out.rule("live-decision")
+        out.d("c01live:%s:%s:%s:%s" % (side, accepted, r.restarted, bool(r.replaced)))
+        if accepted and potential > st.max_selection_exposure + 0.011:
+            out.v("accepted-beyond-limit", {"kind": "PLACE", "limit": "selection", "otype": "LIMIT", "side": side, "live": True, "restarted": r.restarted}, potential=potential, limit=st.max_selection_exposure, exchange_bets=by_sel[sel], log=r.log)
+        r.w.executor.run_all()
+
+    c11.walk(desc, observe)
+    out.c("live_gates")
+    return out.result()
+
+
 def run(desc):
+    if desc.get("mode") == "live_gate":
+        return run_live_gate(desc)
     case, snaps = build(desc)
 
     def pre(fw, tr):
